@@ -9,9 +9,10 @@ import TensorModel.Proofs.Builds
     run, `Generated/DivmodAsm.lean`) computes exactly what `mathutils_go.go` computes, for every
     pair of 64-bit operands, and faults exactly where Go panics;
   * engines: `Float64Engine` / `Float32Engine` `Add` and `FMA` (model `Ext/Engines.lean`) coincide
-    with the default engine (model `Eng.lean`) on every operand pair the default engine accepts on
-    its contiguous path, and defer to it on the iterator path — and the recorded exception F37
-    (no shape / order check) is exhibited by a kernel-checked witness;
+    with the default engine (model `Eng.lean`): `Add` defers to it whenever an operand needs an
+    iterator, the shapes differ or the data orders differ, and equals it on the raw-storage path;
+    `FMA` refuses operands of different shapes like the default engine and equals its `MulIncr` kernel
+    on the contiguous path (the former exception F37 — no shape / order check — is repaired);
   * build `inplacetranspose`: not modelled separately — the single model is compared with all three
     builds by the correspondence run (see DESIGN.md §4 C20).
 -/
@@ -75,18 +76,80 @@ theorem floatAdd_iter_defers (s : St) (e : Eng) (a b : Dense) (o : Opts)
     (h : (a.requiresIterator || b.requiresIterator) = true) :
     engFloatAdd s e a b o = engArithVV s "add" numberTypes a b o := by
   unfold engFloatAdd
-  simp only [h, if_true]
+  simp only [h, Bool.true_or, if_true]
 
-/-- Contiguous path, safe and `UseUnsafe()` modes: for operands the default engine accepts (same
-    element type — the engine's —, same shape, same data order, equally long windows) the specialised
-    `Add` returns exactly the default engine's outcome: the same new state (every buffer), the same
-    returned tensor, the same errors. -/
+/-- Operands of different shapes are handed to the default engine too (which refuses them), whatever the
+    options. -/
+theorem floatAdd_shape_mismatch_defers (s : St) (e : Eng) (a b : Dense) (o : Opts)
+    (h : shapeEq a.shape b.shape = false) :
+    engFloatAdd s e a b o = engArithVV s "add" numberTypes a b o := by
+  unfold engFloatAdd
+  simp only [h, Bool.not_false, Bool.or_true, if_true]
+
+/-- … so they are refused with the default engine's shape-mismatch error when the element types pass its
+    checks -/
+theorem floatAdd_refuses_shape_mismatch (s : St) (e : Eng) (a b : Dense) (o : Opts)
+    (hda : a.dt ∈ numberTypes) (hdb : b.dt = a.dt) (h : shapeEq a.shape b.shape = false) :
+    engFloatAdd s e a b o = throwErr "shapeMismatch" := by
+  rw [floatAdd_shape_mismatch_defers s e a b o h]
+  unfold engArithVV
+  simp [hda, hdb, h, throwErr, bind, Except.bind]
+
+theorem shapeEq_totalSize (s o : Shape) (h : shapeEq s o = true) : totalSize s = totalSize o := by
+  unfold shapeEq at h
+  split at h
+  · rename_i h1
+    simp only [isScalar, Bool.and_eq_true, List.isEmpty_iff] at h1
+    rw [h1.1, h1.2]
+  · split at h
+    · rename_i h2
+      match s, o, h2, h with
+      | [a, b], [c], _, h =>
+        simp [isColVec, isRowVec] at h
+        simp only [totalSize, prod]
+        rcases h with ⟨⟨h1, _⟩, h3⟩ | ⟨⟨h1, _⟩, h3⟩ <;> subst h1 <;> subst h3 <;> simp
+      | [], _, h2, _ => simp at h2
+      | [_], _, h2, _ => simp at h2
+      | _ :: _ :: _ :: _, _, h2, _ => simp at h2
+      | [_, _], [], h2, _ => simp at h2
+      | [_, _], _ :: _ :: _, h2, _ => simp at h2
+    · split at h
+      · rename_i h3
+        match s, o, h3, h with
+        | [c], [a, b], _, h =>
+          simp [isColVec, isRowVec] at h
+          simp only [totalSize, prod]
+          rcases h with ⟨⟨h1, _⟩, h3⟩ | ⟨⟨h1, _⟩, h3⟩ <;> subst h1 <;> subst h3 <;> simp
+        | _, [], h3, _ => simp at h3
+        | _, [_], h3, _ => simp at h3
+        | _, _ :: _ :: _ :: _, h3, _ => simp at h3
+        | [], [_, _], h3, _ => simp at h3
+        | _ :: _ :: _, [_, _], h3, _ => simp at h3
+      · have : s = o := by simpa using h
+        rw [this]
+
+/-- Safe and `UseUnsafe()` modes: for operands of the engine's element type with equally long windows —
+    **whatever their shapes, data orders and layouts** — the specialised `Add` returns exactly the default
+    engine's outcome: the same new state (every buffer), the same returned tensor, the same errors. -/
 theorem floatAdd_eq_std (s : St) (e : Eng) (a b : Dense) (u : Bool)
     (he : e ≠ .std) (hdt : a.dt = engDt e) (hdb : b.dt = a.dt)
-    (hsh : shapeEq a.shape b.shape = true) (hord : sameOrd a b = true)
-    (hia : a.requiresIterator = false) (hib : b.requiresIterator = false)
     (hm : a.mask = none) (hlen : a.win.len = b.win.len) :
     engFloatAdd s e a b { unsafe_ := u } = engArithVV s "add" numberTypes a b { unsafe_ := u } := by
+  by_cases hit : (a.requiresIterator || b.requiresIterator) = true
+  · exact floatAdd_iter_defers s e a b _ hit
+  cases hsh : shapeEq a.shape b.shape with
+  | false => exact floatAdd_shape_mismatch_defers s e a b _ hsh
+  | true =>
+  have hia : a.requiresIterator = false := by
+    cases h : a.requiresIterator <;> simp_all
+  have hib : b.requiresIterator = false := by
+    cases h : b.requiresIterator <;> simp_all
+  cases hord : sameOrd a b with
+  | false =>
+    -- different data orders: handed to the default engine with the options unchanged
+    unfold engFloatAdd handleFuncOptsF
+    simp [hia, hib, hdt, hdb, hsh, hord, bind, Except.bind, pure, Except.pure]
+  | true =>
   have hnum : engDt e ∈ numberTypes := by
     cases e <;> simp_all [engDt, numberTypes]
   have hk : engDt e ∈ kernelTypes "add" := by
@@ -111,12 +174,20 @@ theorem floatAdd_eq_std (s : St) (e : Eng) (a b : Dense) (u : Bool)
       simp [bind, Except.bind, heop s' c.win (by rw [hcl, hlen])]
   · simp [heop s a.win hlen]
 
+/-- `FMA(a, x, y)`: operands `a`, `x` of different shapes are refused, with the default engine's error -/
+theorem floatFMA_refuses_shape_mismatch (s : St) (e : Eng) (a x y : Dense)
+    (hdt : a.dt = engDt e) (hdx : x.dt = a.dt) (hdy : y.dt = a.dt)
+    (hsh : shapeEq a.shape x.shape = false) :
+    engFloatFMA s e a x y = throwErr "shapeMismatch" := by
+  unfold engFloatFMA
+  simp [hdt, hdx, hdy, hsh, throwErr, bind, Except.bind]
+
 /-- `FMA(a, x, y)`, contiguous path: the specialised engines' fused kernel is the default engine's
-    `Mul(a, x, WithIncr(y))` whenever the default engine takes its plain `MulIncr` kernel (operands
-    accepted, `y` of the operands' shape and order, more than one element). -/
+    `Mul(a, x, WithIncr(y))` — the shape-mismatch error when the shapes of `a` and `x` differ, and the
+    plain `MulIncr` kernel otherwise (`y` of the operands' shape and order, more than one element). -/
 theorem floatFMA_eq_std (s : St) (e : Eng) (a x y : Dense)
     (he : e ≠ .std) (hdt : a.dt = engDt e) (hdx : x.dt = a.dt) (hdy : y.dt = a.dt)
-    (hsh : shapeEq a.shape x.shape = true) (hshy : shapeEq y.shape a.shape = true)
+    (hshy : shapeEq y.shape a.shape = true)
     (hord : sameOrd a x = true) (hordy : sameOrd a y = true)
     (hia : a.requiresIterator = false) (hix : x.requiresIterator = false) (hiy : y.requiresIterator = false)
     (hleny : (y.win.len : Int) = totalSize a.shape)
@@ -124,16 +195,23 @@ theorem floatFMA_eq_std (s : St) (e : Eng) (a x y : Dense)
     engFloatFMA s e a x y = engArithVV s "mul" numberTypes a x { incr := some y } := by
   have hnum : engDt e ∈ numberTypes := by
     cases e <;> simp_all [engDt, numberTypes]
+  cases hsh : shapeEq a.shape x.shape with
+  | false =>
+    rw [floatFMA_refuses_shape_mismatch s e a x y hdt hdx hdy hsh]
+    unfold engArithVV
+    simp [hdt, hdx, hsh, hnum, throwErr, bind, Except.bind]
+  | true =>
   have hk : engDt e ∈ kernelTypes "mul" := by
     simpa [kernelTypes] using hnum
   have hv : vecFn "mul" (engDt e) = fun p q => Val.app2 "mul" p q := by
     simp [vecFn]
   have hoxy : sameOrd x y = true := by
     unfold sameOrd at *; simp_all
+  have hty : totalSize y.shape = totalSize a.shape := shapeEq_totalSize _ _ hshy
   unfold engFloatFMA engArithVV handleFuncOpts eOpIncr isSc
-  simp [hia, hix, hiy, hdt, hdx, hdy, hsh, hshy, hord, hordy, hoxy, hnum, hk, hleny, hna, hnx, hv]
+  simp [hia, hix, hiy, hdt, hdx, hdy, hsh, hshy, hord, hordy, hoxy, hnum, hk, hleny, hna, hnx, hv, hty]
 
-/-! ## non-vacuity and the recorded exception -/
+/-! ## non-vacuity -/
 
 /-- two contiguous f64 vectors of length 2 over buffers 0 and 1 -/
 def wA : Dense := { ap := { shape := [2], strides := [1], fin := true }, win := ⟨0, 0, 2, 2⟩, dt := "f64", eng := .f64 }
@@ -142,17 +220,17 @@ def wB : Dense := { ap := { shape := [2], strides := [1], fin := true }, win := 
 def wC : Dense := { ap := { shape := [3], strides := [1], fin := true }, win := ⟨1, 0, 3, 3⟩, dt := "f64", eng := .f64 }
 def wSt : St := { heap := #[#[.src 0 0, .src 0 1], #[.src 1 0, .src 1 1, .src 1 2]] }
 
-/-- the hypotheses of `floatAdd_eq_std` / `floatFMA_eq_std` are satisfiable -/
+/-- the hypotheses of `floatAdd_eq_std` / `floatFMA_eq_std` are satisfiable, on the raw-storage path -/
 example : Eng.f64 ≠ .std ∧ wA.dt = engDt .f64 ∧ wB.dt = wA.dt ∧ shapeEq wA.shape wB.shape = true ∧ sameOrd wA wB = true ∧
     wA.requiresIterator = false ∧ wB.requiresIterator = false ∧ wA.mask = none ∧ wA.win.len = wB.win.len := by decide
 
 /-- … and on that instance the call does succeed (the equality is not between two errors) -/
 example : (match engFloatAdd wSt .f64 wA wB { unsafe_ := true } with | .ok _ => true | .error _ => false) = true := by decide
 
-/-- F37, the recorded exception to the equivalence: operands of *different shapes* (lengths 2 and 3) are
-    refused by the default engine and combined cell by cell by the specialised engine. -/
-theorem floatAdd_skips_shape_check :
-    (match engFloatAdd wSt .f64 wA wC { unsafe_ := true } with | .ok _ => true | .error _ => false) = true ∧
+/-- operands of *different shapes* (lengths 2 and 3) are refused by the specialised engine as by the
+    default engine (this pair was the witness of the former finding F37) -/
+theorem floatAdd_shape_check :
+    (match engFloatAdd wSt .f64 wA wC { unsafe_ := true } with | .ok _ => true | .error _ => false) = false ∧
     (match engArithVV wSt "add" numberTypes wA wC { unsafe_ := true } with | .ok _ => true | .error _ => false) = false := by
   decide
 
